@@ -2,7 +2,7 @@ CONSTANTS
   RawConfigs <- MCRawConfigs
   InheritsSeesDefault = TRUE
   MaxLen = 2
-  TextVariants = {1, 2, 5, 6, 8}
+  TextVariants = {1, 2, 5, 6, 8, 10, 11, 13, 14, 15}
 SPECIFICATION MCSpec
 INVARIANTS Conforms EmitCases
 PROPERTY Termination
